@@ -1,6 +1,10 @@
 import Kdf.Model.Pgt
 import Kdf.Model.PgtArch
 import Kdf.Spec.ArchWalk
+import Kdf.Spec.ArchAarch64
+import Kdf.Spec.ArchArm
+import Kdf.Spec.ArchS390x
+import Kdf.Spec.ArchPpc64
 /-! Line protocol for stream `walk` (C02).  See harness/s_walk.c for the twin.
 
 ```
@@ -12,6 +16,19 @@ walk <addr>     ->  > walk <status> [<as> <addr>]
                     > steps <status> r,as,addr,elemsz,i0:..:i8|...
 twalk <addr>    ->  > reads as:addr:size ...      (driver only; used by the generator)
 ```
+After every `walk` the driver also prints the independent specification (not part of the
+correspondence stream):
+```
+# spec <status> [<as> <addr>]                               result of the architectural specification
+# spec out-of-scope                                         no specification for this format / field list
+# spec known-deviation <tag> <lib> | <status> [<as> <addr>] the input lies in a documented deviation class
+```
+`<tag>` is `aarch64-va-range`, `arm-va-range`, `ppc64-D1`, `ppc64-D2` or `s390x-D2` (see `knownDeviation`
+in `Kdf/Spec/Arch*.lean`); `<lib>` is what the library is expected to answer inside the class where the
+specification file predicts it (s390x: `specWith library`), otherwise `-`; after the bar: the specification.
+`KDF_NO_KNOWN_DEVIATION=1` (or `KDF_PPC64_STRICT=1` for ppc64 only) switches the classes off (plain `# spec`
+lines, to reproduce the discrepancies); `KDF_PPC64_DIALECT=lib` prints the ppc64 library dialect instead of
+the specification (diagnostics).
 -/
 namespace Driver.Walk
 open Kdf.Model.Pgt
@@ -86,6 +103,52 @@ def traceWalk (c : MemCfg) (m : Meth) (addr : Nat) : List String :=
       some s!"{showAs s.base.as}:{a}:{sz}"
     else none
 
+def showRes : Except XStatus FullAddr → String
+  | .ok f => s!"ok {showAs f.as} {f.addr}"
+  | .error e => showStatus e
+
+/-- the `# spec …` line for one walk (see the file header) -/
+def specLine (c : MemCfg) (m : Meth) (a : Nat) : IO String := do
+  -- KDF_NO_KNOWN_DEVIATION=1: compare with the specification even on documented deviations
+  let noDev := (← IO.getEnv "KDF_NO_KNOWN_DEVIATION") == some "1"
+  let mem := memOf c
+  match m with
+  | .pgt t root mask pf =>
+    if Kdf.Spec.ArchAarch64.archFormAarch64 pf then
+      -- AArch64 (Kdf/Spec/ArchAarch64.lean); one class: vaRange
+      let r := showRes (Kdf.Spec.ArchAarch64.specAarch64 mem t root mask pf a)
+      if !noDev && Kdf.Spec.ArchAarch64.knownDeviation mem t root mask pf a then
+        return s!"# spec known-deviation aarch64-va-range - | {r}"
+      else return s!"# spec {r}"
+    else if Kdf.Spec.ArchArm.archFormArm pf then
+      -- 32-bit Arm short descriptors (Kdf/Spec/ArchArm.lean); one class: va ≥ 2^(32-N)
+      let r := showRes (Kdf.Spec.ArchArm.specArm mem t root mask pf a)
+      if !noDev && Kdf.Spec.ArchArm.knownDeviation pf a then
+        return s!"# spec known-deviation arm-va-range - | {r}"
+      else return s!"# spec {r}"
+    else if Kdf.Spec.ArchS390x.archFormS390x pf then
+      -- z/Architecture (Kdf/Spec/ArchS390x.lean); one class: D2 (PTE bit 52 ignored), inside it the
+      -- library has to agree with `specWith library`
+      let strict := Kdf.Spec.ArchS390x.specS390x mem t root mask pf a
+      if !noDev && Kdf.Spec.ArchS390x.knownDeviation mem t root mask pf a then
+        let lib := Kdf.Spec.ArchS390x.specWith Kdf.Spec.ArchS390x.library mem t root mask pf a
+        return s!"# spec known-deviation s390x-D2 {showRes lib} | {showRes strict}"
+      else return s!"# spec {showRes strict}"
+    else if Kdf.Spec.ArchPpc64.archFormPpc64 pf then
+      -- Linux/ppc64 (Kdf/Spec/ArchPpc64.lean); classes D1 (_PAGE_PRESENT), D2 (hugepd encoding)
+      let strict := noDev || (← IO.getEnv "KDF_PPC64_STRICT").isSome
+      let dc := Kdf.Spec.ArchPpc64.knownDeviationClass mem t root mask pf a
+      let r := showRes (if (← IO.getEnv "KDF_PPC64_DIALECT") == some "lib"
+                  -- diagnostic only: the format the library implements, in specification style
+                  then Kdf.Spec.ArchPpc64.specWith Kdf.Spec.ArchPpc64.libkdumpfile mem t root mask pf a
+                  else Kdf.Spec.ArchPpc64.specPpc64 mem t root mask pf a)
+      if !strict && dc ≠ 0 then return s!"# spec known-deviation ppc64-D{dc} - | {r}"
+      else return s!"# spec {r}"
+    else if Kdf.Spec.ArchWalk.archForm pf then
+      return s!"# spec {showRes (Kdf.Spec.ArchWalk.specXlat mem m a)}"
+    else return "# spec out-of-scope"
+  | _ => return s!"# spec {showRes (Kdf.Spec.ArchWalk.specXlat mem m a)}"
+
 partial def loop (h : IO.FS.Stream) (c : MemCfg) (m : Meth) : IO Unit := do
   let line ← h.getLine
   if line.isEmpty then return ()
@@ -119,12 +182,7 @@ partial def loop (h : IO.FS.Stream) (c : MemCfg) (m : Meth) : IO Unit := do
     let st := match fin with | .ok _ => "ok" | .error e => showStatus e
     IO.println (s!"> steps {st} " ++ "|".intercalate (steps.map showStep))
     -- the independent specification (not part of the correspondence stream)
-    let inScope := match m with | .pgt _ _ _ pf => Kdf.Spec.ArchWalk.archForm pf | _ => true
-    if inScope then
-      match Kdf.Spec.ArchWalk.specXlat (memOf c) m a with
-      | .ok f => IO.println s!"# spec ok {showAs f.as} {f.addr}"
-      | .error e => IO.println s!"# spec {showStatus e}"
-    else IO.println "# spec out-of-scope"
+    IO.println (← specLine c m a)
     loop h c m
   | ["twalk", addr] =>
     IO.println ("> reads " ++ " ".intercalate (traceWalk c m addr.toNat!))
